@@ -398,3 +398,205 @@ def _inside(node, root):
       return True
     node = getattr(node, 'parent', None)
   return False
+
+
+# ----------------------------------------------------------------------------
+# Rules shared between properties (each is a genuine necessary condition of
+# every property it is run under).
+
+SIG_HELPERS = ('config._get_validated_required_kwargs', 'config._get_default_configurable_parameter_values',
+               'config._get_supplied_positional_parameter_names', 'config._order_by_signature',
+               'config._get_all_positional_parameter_names')
+
+
+def signature_agreement(ctx, rule):
+  """AGREE: every helper that inspects "the signature" inside the wrapper
+  factory is given the same callable, and that callable is the class's
+  construction function for classes."""
+  prog = ctx.prog
+  fac = ctx.func('config._make_gin_wrapper')
+  args = {}
+  for f in [fac] + [x for x in fac.nested.values() if hasattr(x, 'node') and isinstance(x.node, (ast.FunctionDef,))]:
+    for c in walk_local(f.node):
+      if isinstance(c, ast.Call) and prog.resolve_call(f, c) in SIG_HELPERS and c.args:
+        args.setdefault(u(c.args[0]), []).append((f, c))
+  ctx.expect_at_least('signature-inspecting helper calls in the wrapper factory', sum(len(v) for v in args.values()), 3)
+  if len(args) > 1:
+    major = max(args, key=lambda k: len(args[k]))
+    for k, sites in args.items():
+      if k == major:
+        continue
+      f, c = sites[0]
+      ctx.fail(rule, construct(fac),
+               '`%s` inspects `%s` while its sibling helpers inspect `%s`: for a class registered through the metaclass call wrapper these are '
+               'different callables, so REQUIRED defaults / positional names / configurable defaults are read from the wrong signature'
+               % (u(c.func), k, major), f.loc(c), sites=sum(len(v) for v in args.values()), instance='sig:' + u(c.func))
+  else:
+    ctx.hold(rule, construct(fac), 'all %d signature-inspecting helpers receive the same callable `%s`'
+             % (sum(len(v) for v in args.values()), list(args)[0]), fac.loc(), sites=sum(len(v) for v in args.values()), instance='sig-agree')
+  name = max(args, key=lambda k: len(args[k])) if args else None
+  defs = [a for a in walk_local(fac.node) if isinstance(a, ast.Assign) and name and u(a.targets[0]) == name]
+  texts = sorted(u(a.value) for a in defs)
+  ok = texts == sorted([fac.params[1], '_find_class_construction_fn(%s)' % fac.params[1]])
+  ctx.check(ok, rule, construct(fac), 'that callable is the registered function, or the class\'s __init__/__new__ for a class',
+            'the inspected callable is defined as %s' % texts, fac.loc(), instance='sig-def')
+
+
+def scope_who(ctx, rule):
+  """Scopes are pushed / popped only inside config_scope; everyone else uses `with config_scope(...)`."""
+  prog = ctx.prog
+  f = ctx.func('config.config_scope')
+  for q, label in ((ENTER, 'push'), (EXIT, 'pop')):
+    sites = prog.call_sites_of(q)
+    outside = [(cf, cn) for cf, cn in sites if cf.qual != 'config.config_scope']
+    ctx.check(not outside and sites, rule, 'gin/config.py::_ScopeManager.' + q.rsplit('.', 1)[1],
+              'scope %s is called only from config_scope (%d site)' % (label, len(sites)),
+              'scope %s is called outside config_scope: %s (a hand-written push/pop has its own exit paths to get right)' % (label, [cf.loc(cn) for cf, cn in outside]),
+              outside[0][0].loc(outside[0][1]) if outside else f.loc(), sites=len(sites), instance=label)
+  uses = prog.call_sites_of('config.config_scope')
+  bad = [cf.loc(cn) for cf, cn in uses if not isinstance(cn.parent, ast.withitem)]
+  ctx.check(not bad, rule, construct(f), 'all %d in-package uses of config_scope are `with` items' % len(uses),
+            'config_scope(...) used outside a with statement at %s' % bad, bad[0] if bad else f.loc(), sites=len(uses), instance='with-only')
+
+
+def scope_copy_out(ctx, rule):
+  from ..lib import returns_of
+  c = ctx.cls('config._ScopeManager')
+  ccon = '%s::%s' % (c.module.relpath, c.name)
+  for pname in ('current_scope', 'active_scopes'):
+    pm = c.methods.get(pname)
+    if pm is None:
+      raise AnalysisError('anchor _ScopeManager.%s vanished' % pname)
+    rets = returns_of(pm)
+    kinds = [copy_kind(r.value) for r in rets if r.value is not None]
+    ok = bool(kinds) and all(at_least(k, 'SHALLOW') for k in kinds)
+    ctx.check(ok, rule, ccon + '.' + pname, 'returns a copy (%s) of the live frame' % kinds,
+              'returns the live stack frame itself (%s): whoever receives it (config_scope extends it; user code may) mutates the active '
+              'scope, or the scope list held by a reference, in place' % [u(r.value) for r in rets], pm.loc(), instance=pname)
+
+
+def stack_discipline(ctx, rule):
+  c = ctx.cls('config._ScopeManager')
+  ccon = '%s::%s' % (c.module.relpath, c.name)
+  en, ex = c.methods.get('enter_scope'), c.methods.get('exit_scope')
+  if en is None or ex is None:
+    raise AnalysisError('_ScopeManager.enter_scope / exit_scope vanished')
+  def muts(m):
+    out = []
+    for n in walk_local(m.node):
+      if isinstance(n, ast.Call) and isinstance(n.func, ast.Attribute) and u(n.func.value).startswith('self._active'):
+        out.append(n.func.attr + '(' + ','.join(u(a) for a in n.args) + ')')
+      if isinstance(n, (ast.Delete,)):
+        out.append('del ' + ','.join(u(t) for t in n.targets))
+      if isinstance(n, ast.Assign) and any('_active' in u(t) for t in n.targets):
+        out.append(u(n))
+    return out
+  me, mx = muts(en), muts(ex)
+  ctx.check(me == ['append(%s)' % en.params[1]], rule, ccon + '.enter_scope', 'entering pushes the new scope on top of the stack',
+            'enter_scope mutates the stack with %s' % me, en.loc(), instance='push')
+  ctx.check(mx == ['pop()'], rule, ccon + '.exit_scope', 'leaving pops the top of the stack (strict LIFO)',
+            'exit_scope mutates the stack with %s instead of popping the top: when an equal scope is active at an outer depth the wrong '
+            'entry is removed and the previously active scope is not restored' % mx, ex.loc(), instance='pop')
+
+
+def method_selector_rule(ctx, rule):
+  """ImportManager.minimal_selector (static branch): the registry's minimal
+  selector is widened to Class.method only for a method whose minimal selector is a bare name."""
+  prog = ctx.prog
+  f = ctx.func('config.ImportManager.minimal_selector')
+  g, facts = std_facts(prog, f)
+  rets = [n for n in g.live_nodes() if n.kind == 'return' and n.ast.value is not None
+          and ('c', 'self.dynamic_registration', False) in facts[n.id]]
+  ok = bool(rets)
+  why = 'no static-branch return'
+  for r in rets:
+    v = r.ast.value
+    name = v.id if isinstance(v, ast.Name) else None
+    defs = [a for a in walk_local(f.node) if isinstance(a, ast.Assign) and name and u(a.targets[0]) == name]
+    base = [a for a in defs if isinstance(a.value, ast.Call) and u(a.value.func) == '_REGISTRY.minimal_selector']
+    widen = [a for a in defs if a not in base]
+    if not base:
+      ok = False
+      why = 'the returned selector `%s` does not come from _REGISTRY.minimal_selector' % u(v)
+      continue
+    for wn in widen:
+      node = g.nodes_for(wn)[0]
+      fs = facts[node.id]
+      cond = ('c', 'configurable_.is_method', True) in fs and ('c', "'.' in %s" % name, False) in fs
+      if not cond:
+        ok = False
+        why = 'the selector is replaced by `%s` without the condition "a method whose minimal selector is a bare name"' % u(wn.value)
+  ctx.check(ok, rule, construct(f),
+            'emitted selectors are the registry\'s minimal (unambiguous) ones; only a bare method name is widened to Class.method',
+            'the selector emitted for a configurable is not the registry\'s minimal unambiguous selector (%s): with two classes of the same '
+            'name the emitted `Class.method` is ambiguous and the config string no longer parses back' % why, f.loc(), instance='static-branch')
+
+
+def lock_order(ctx, rule):
+  """LOCK-ORDER: the module's locks are acquired in one global order.
+
+  Edges A -> B: B may be acquired while A is held -- lexically nested `with`,
+  through a resolved callee, or through a call to a *user-supplied callable*
+  (a parameter / loop variable / attribute being called), which may call any
+  configurable and therefore take every lock the wrapper takes."""
+  prog = ctx.prog
+  m = ctx.ix.module('config')
+  locks = {}
+  for name, lst in m.assigns.items():
+    v = lst[0][1]
+    if isinstance(v, ast.Call) and u(v.func) in ('threading.Lock', 'threading.RLock'):
+      locks[name] = u(v.func).split('.')[1]
+  if not locks:
+    ctx.note('no module-level locks')
+    return
+  takes = {}    # func qual -> set of locks taken directly
+  for f in ctx.ix.all_funcs(['config']):
+    for n in walk_local(f.node):
+      if isinstance(n, ast.With):
+        for it in n.items:
+          if isinstance(it.context_expr, ast.Name) and it.context_expr.id in locks:
+            takes.setdefault(f.qual, set()).add(it.context_expr.id)
+  def reach_locks(q, seen=None):
+    out = set()
+    for r in prog.reachable([q]):
+      out |= takes.get(r, set())
+    return out
+  wrapper_locks = reach_locks('config._make_gin_wrapper.gin_wrapper') | takes.get('config._make_gin_wrapper.gin_wrapper', set())
+  edges = {}
+  for f in ctx.ix.all_funcs(['config']):
+    for n in walk_local(f.node):
+      if not isinstance(n, ast.With):
+        continue
+      held = [it.context_expr.id for it in n.items if isinstance(it.context_expr, ast.Name) and it.context_expr.id in locks]
+      if not held:
+        continue
+      for i, a in enumerate(held):       # `with A, B:` acquires A then B
+        for b in held[i + 1:]:
+          edges.setdefault((a, b), f.loc(n))
+      for a in held:
+        for x in walk_local(n):
+          if x is n:
+            continue
+          if isinstance(x, ast.With):
+            for it in x.items:
+              if isinstance(it.context_expr, ast.Name) and it.context_expr.id in locks:
+                edges.setdefault((a, it.context_expr.id), f.loc(x))
+          if isinstance(x, ast.Call):
+            q = prog.resolve_call(f, x)
+            if q:
+              for b in reach_locks(q):
+                edges.setdefault((a, b), f.loc(x))
+            elif isinstance(x.func, ast.Name) and x.func.id in f.params:
+              for b in wrapper_locks:       # user callable: may call any configurable
+                edges.setdefault((a, b), f.loc(x) + ' (user callable `%s`)' % x.func.id)
+  # self edges on non re-entrant locks and cycles
+  bad = []
+  for (a, b), where in edges.items():
+    if a == b and locks[a] != 'RLock':
+      bad.append(('%s is re-acquired while held (not re-entrant)' % a, where))
+    if a != b and (b, a) in edges:
+      bad.append(('%s -> %s at %s but %s -> %s at %s' % (a, b, where, b, a, edges[(b, a)]), where))
+  ctx.check(not bad, rule, 'gin/config.py::locks', 'locks %s are acquired in one order (edges: %s)' % (sorted(locks), sorted('%s->%s' % e for e in edges if e[0] != e[1]) or 'none'),
+            'lock-order inversion: %s -- two threads taking the locks in opposite orders deadlock (e.g. a singleton under construction calls a '
+            'configurable while another thread clears the configuration)' % (bad[0][0] if bad else ''), bad[0][1].split(' ')[0] if bad else 'gin/config.py',
+            sites=len(edges) or 1, instance='lock-order')
